@@ -82,6 +82,7 @@ func parseChainActs(s string) ([]chainAct, bool) {
 type chainRun struct {
 	trace []string
 	ctx   *rux.Context
+	marks [2]int // how often a global handler of router 1 / of the second router (see build) was entered
 
 	cxaUsed bool // the request has already re-dispatched once (action `d`)
 }
@@ -199,6 +200,9 @@ type chainState struct {
 	variant int
 	path    string
 	run     *chainRun
+	// a second router with global handlers of its own (the same actions, but they count in run.marks[1]) to which the
+	// SAME *Route object is attached (Route.AttachTo; nil when rux refused that)
+	router2 *rux.Router
 }
 
 func (s *chainState) build(variant int) {
@@ -216,6 +220,13 @@ func (s *chainState) build(variant int) {
 	}
 	mh := mkHandler(cr, G+P+len(s.r), s.m)
 
+	var gh2 []rux.HandlerFunc
+	for i := range gh {
+		h := gh[i]
+		gh[i] = func(c *rux.Context) { cr.marks[0]++; h(c) }
+		gh2 = append(gh2, func(c *rux.Context) { cr.marks[1]++; h(c) })
+	}
+	var theRoute *rux.Route
 	router := rux.New()
 	useGlobals := func() {
 		if variant&16 != 0 {
@@ -232,8 +243,9 @@ func (s *chainState) build(variant int) {
 			for _, h := range rh {
 				rt.Use(h)
 			}
+			theRoute = rt
 		} else {
-			router.GET("/x", mh, rh...)
+			theRoute = router.GET("/x", mh, rh...)
 		}
 	}
 	if variant&1 == 0 {
@@ -273,6 +285,16 @@ func (s *chainState) build(variant int) {
 		useGlobals()
 	}
 	s.router, s.variant, s.path, s.run = router, variant, path, cr
+	s.router2 = nil
+	if theRoute != nil && len(gh2) > 0 {
+		func() {
+			defer func() { _ = recover() }()
+			r2 := rux.New()
+			r2.Use(gh2...)
+			theRoute.AttachTo(r2)
+			s.router2 = r2
+		}()
+	}
 }
 
 // cxRecoveringNext is the action `R`: c.Next() inside a recovery middleware (defer/recover around the rest of
@@ -354,6 +376,27 @@ func (s *chainState) cxServe(variant int, failFrom int) (ans string, oracle []st
 		t = strings.Join(tr, ",")
 	}
 	total := len(s.g) + len(s.p) + len(s.r) + 1
+	// the same *Route attached to a second router: served there, the request runs THAT router's global handlers (as
+	// many entries as router 1 counted for its own) around the same route chain
+	if s.router2 != nil && failFrom == -1 {
+		m1 := s.run.marks[0]
+		svTrace, svCtx, svUsed := s.run.trace, s.run.ctx, s.run.cxaUsed
+		s.run.trace, s.run.ctx, s.run.cxaUsed, s.run.marks = nil, nil, false, [2]int{}
+		rec2 := httptest.NewRecorder()
+		p2 := guarded(func() string {
+			s.router2.ServeHTTP(rec2, httptest.NewRequest("GET", s.path, nil))
+			return ""
+		})
+		t2, m2 := "-", s.run.marks
+		if len(s.run.trace) > 0 {
+			t2 = strings.Join(s.run.trace, ",")
+		}
+		s.run.trace, s.run.ctx, s.run.cxaUsed = svTrace, svCtx, svUsed
+		if p2 == "" && (t2 != t || rec2.Code != rec.Code || m2[0] != 0 || m2[1] != m1) {
+			oracle = append(oracle, fmt.Sprintf("C04 one Route attached to two routers: served by the second router the trace is %q st=%d with %d entries into router 1's global handlers and %d into its own; router 1 answered %q st=%d with %d entries into its own", t2, rec2.Code, m2[0], m2[1], t, rec.Code, m1))
+		}
+	}
+	s.run.marks = [2]int{}
 	if total <= rux.VerifAbortIndex() {
 		if cxaHasRedispatch(tr) {
 			oracle = cxaOracle(tr)
